@@ -923,6 +923,8 @@ class Machine:
         st = strip_generics(t)
         if st.endswith('PhantomData') or 'PhantomData' in st:
             return None
+        if st.endswith('RangeFull'):
+            return Struct('RangeFull', [], [])
         # crate consts / statics
         ck = parse_callee(t)
         if ck.kind == 'path':
